@@ -7,16 +7,20 @@
    Deviation switches (on = what the code does today, all off = conformant):
      d_time_active_per_arg (D15)  the new subsystem checks every @time_active argument separately and accepts if any passes;
      d_hold_early_update   (D70)  the new subsystem records last_trig_time as soon as the time_active guard passes, also when a
-                                  later guard rejects the occurrence.
+                                  later guard rejects the occurrence;
+     d_stale_active_vars   (D71)  both subsystems: AstEval.eval keeps the previous symbol table when the new one is empty, so
+                                  @state_active goes on seeing the None it was given for an entity that did not exist yet.
    The monotonic clock (hold_off) and the wall clock (time_active) are separate coordinates of an occurrence, as in the code.
    No proofs here (see Proofs/TrigGuards.v). *)
 From PV Require Import Common.Util Gen.GuardConsts Time.Windows.
 
 Local Open Scope Z_scope.
 
-Record deviations := { d_time_active_per_arg : bool; d_hold_early_update : bool }.
-Definition all_off (c : deviations) : Prop := d_time_active_per_arg c = false /\ d_hold_early_update c = false.
-Definition cfg_off : deviations := {| d_time_active_per_arg := false; d_hold_early_update := false |}.
+Record deviations := { d_time_active_per_arg : bool; d_hold_early_update : bool; d_stale_active_vars : bool }.
+Definition all_off (c : deviations) : Prop :=
+  d_time_active_per_arg c = false /\ d_hold_early_update c = false /\ d_stale_active_vars c = false.
+Definition cfg_off : deviations :=
+  {| d_time_active_per_arg := false; d_hold_early_update := false; d_stale_active_vars := false |}.
 
 (* ---------- @state_active ---------- *)
 (* identifiers (entity names, "name.old") are [N] ids; a value is [Some v] or [None] (python None / entity absent) *)
@@ -44,28 +48,38 @@ Fixpoint sa_names (e : sexpr) : list N :=
 
 Definition opt_join (x : option (option N)) : option N := match x with Some v => v | None => None end.
 
-(* evaluation of the expression; [vars] is the symbol table handed to AstEval.eval, [cur] what a name that is not in it
-   resolves to (State.get: the current state) *)
+(* name resolution of the evaluator: [vars] is the symbol table handed to AstEval.eval, a name that is not in it
+   resolves to the current state [cur] (State.get) *)
+Definition lookup (vars cur : env) (k : N) : option N :=
+  match env_get vars k with Some x => x | None => opt_join (env_get cur k) end.
+
 Fixpoint sa_eval (e : sexpr) (vars cur : env) : bool :=
   match e with
   | SConst b => b
-  | SEq k v =>
-      let x := match env_get vars k with Some x => x | None => opt_join (env_get cur k) end in
-      match x with Some w => N.eqb w v | None => false end
+  | SEq k v => match lookup vars cur k with Some w => N.eqb w v | None => false end
   | SNot a => negb (sa_eval a vars cur)
   | SAnd a b => sa_eval a vars cur && sa_eval b vars cur
   | SOr a b => sa_eval a vars cur || sa_eval b vars cur
   end.
 
-(* State.notify_var_get(var_names, new_vars): new_vars.copy(), then every other name of the expression gets its
-   last notified / current value *)
-Fixpoint notify_var_get (names : list N) (cur : env) (acc : env) : env :=
+(* State.notify_var_get(var_names, new_vars): new_vars.copy(); every other name of the expression gets its last notified
+   value if some trigger watches it, None if the entity does not exist, and is otherwise left out (the evaluator then
+   reads the current state) *)
+Fixpoint notify_var_get (names : list N) (last cur : env) (acc : env) : env :=
   match names with
   | [] => acc
   | k :: r =>
       match env_get acc k with
-      | Some _ => notify_var_get r cur acc
-      | None => notify_var_get r cur (acc ++ [(k, opt_join (env_get cur k))])
+      | Some _ => notify_var_get r last cur acc
+      | None =>
+          match env_get last k with
+          | Some v => notify_var_get r last cur (acc ++ [(k, v)])
+          | None =>
+              match opt_join (env_get cur k) with
+              | None => notify_var_get r last cur (acc ++ [(k, None)])
+              | Some _ => notify_var_get r last cur acc
+              end
+          end
       end
   end.
 
@@ -77,11 +91,16 @@ Record occ := {
   o_mono : Z;            (* time.monotonic() when the occurrence is processed (ticks of 2^-20 s) *)
   o_wall : Z;            (* occurrence time on the wall clock, microseconds (time triggers: the trigger time) *)
   o_trig : env;          (* the triggering values (state triggers: the variable and its .old) *)
+  o_last : env;          (* State.notify_var_last: last notified value of the entities some trigger watches *)
   o_cur : env            (* current state of every entity when the occurrence is processed *)
 }.
 
-Definition state_active_model (e : sexpr) (o : occ) : bool :=
-  sa_eval e (notify_var_get (sa_names e) (o_cur o) (o_trig o)) (o_cur o).
+(* one evaluation of the @state_active expression; [tbl] is the evaluator's local_sym_table left by the previous
+   evaluation (AstEval.eval replaces it only `if new_state_vars:`) *)
+Definition sa_check (cfg : deviations) (e : sexpr) (tbl : env) (o : occ) : bool * env :=
+  let vars := notify_var_get (sa_names e) (o_last o) (o_cur o) (o_trig o) in
+  let tbl' := if d_stale_active_vars cfg then match vars with [] => tbl | _ => vars end else vars in
+  (sa_eval e tbl' (o_cur o), tbl').
 
 Record guards := {
   g_sa : option sexpr;              (* @state_active(expr) *)
@@ -100,17 +119,19 @@ Fixpoint run {S : Type} (step : S -> occ -> bool * S) (s : S) (occs : list occ) 
   end.
 
 (* ---------- legacy: trigger_watch ---------- *)
-Definition lg_step (g : guards) (st : Z) (sun : suntab) (last : option Z) (o : occ) : bool * option Z :=
-  if is_direct o then (true, last) else
-  let ok1 := match g_sa g with Some e => state_active_model e o | None => true end in
+Definition lg_state : Type := option Z * env.           (* last_trig_time, active_expr's symbol table *)
+Definition lg_step (cfg : deviations) (g : guards) (st : Z) (sun : suntab) (s : lg_state) (o : occ) : bool * lg_state :=
+  let '(last, tbl) := s in
+  if is_direct o then (true, s) else
+  let '(ok1, tbl') := match g_sa g with Some e => sa_check cfg e tbl o | None => (true, tbl) end in
   let ok2 := if ok1 then match g_ta g with
-                         | Some (_ :: _ as specs) => active_check specs st sun (o_wall o)
+                         | Some ((_ :: _) as specs) => active_check specs st sun (o_wall o)
                          | _ => true
                          end else false in
-  if negb ok2 then (false, last) else
+  if negb ok2 then (false, (last, tbl')) else
   match hold_of g, last with
-  | Some n, Some l => if cmpZ lg_hold_cmp (o_mono o) (l + n) then (false, last) else (true, Some (o_mono o))
-  | _, _ => (true, Some (o_mono o))
+  | Some n, Some l => if cmpZ lg_hold_cmp (o_mono o) (l + n) then (false, (last, tbl')) else (true, (Some (o_mono o), tbl'))
+  | _, _ => (true, (Some (o_mono o), tbl'))
   end.
 
 (* ---------- new: FunctionDecoratorManager.dispatch ---------- *)
@@ -138,30 +159,33 @@ Definition ta_handle (cfg : deviations) (specs : list sspec) (hold : option Z) (
       if pass then (true, o_mono o) else (false, last)
   end.
 
-Definition handle (cfg : deviations) (st : Z) (sun : suntab) (o : occ) (h : handler) (last : Z) : bool * Z :=
+Definition nw_state : Type := Z * env.                   (* TimeActiveDecorator.last_trig_time, StateActiveDecorator's symbol table *)
+Definition handle (cfg : deviations) (st : Z) (sun : suntab) (o : occ) (h : handler) (s : nw_state) : bool * nw_state :=
+  let '(last, tbl) := s in
   match h with
-  | HSa e => (state_active_model e o, last)
-  | HTa specs hold => ta_handle cfg specs hold st sun last o
+  | HSa e => let '(ok, tbl') := sa_check cfg e tbl o in (ok, (last, tbl'))
+  | HTa specs hold => let '(ok, last') := ta_handle cfg specs hold st sun last o in (ok, (last', tbl))
   end.
 
-Fixpoint dispatch_fold (cfg : deviations) (st : Z) (sun : suntab) (o : occ) (hs : list handler) (last : Z) : bool * Z :=
+Fixpoint dispatch_fold (cfg : deviations) (st : Z) (sun : suntab) (o : occ) (hs : list handler) (s : nw_state) : bool * nw_state :=
   match hs with
-  | [] => (true, last)
-  | h :: r => let '(ok, last1) := handle cfg st sun o h last in
-              if ok then dispatch_fold cfg st sun o r last1 else (false, last1)
+  | [] => (true, s)
+  | h :: r => let '(ok, s1) := handle cfg st sun o h s in
+              if ok then dispatch_fold cfg st sun o r s1 else (false, s1)
   end.
 
-Definition nw_step (cfg : deviations) (g : guards) (st : Z) (sun : suntab) (last : Z) (o : occ) : bool * Z :=
-  if is_direct o then (true, last) else
-  let '(ok, last1) := dispatch_fold cfg st sun o (handlers_of g) last in
-  if ok then (true, last1) else (false, if d_hold_early_update cfg then last1 else last).
+(* a conformant dispatch records last_trig_time only when every handler accepted *)
+Definition nw_step (cfg : deviations) (g : guards) (st : Z) (sun : suntab) (s : nw_state) (o : occ) : bool * nw_state :=
+  if is_direct o then (true, s) else
+  let '(ok, s1) := dispatch_fold cfg st sun o (handlers_of g) s in
+  if ok then (true, s1) else (false, if d_hold_early_update cfg then s1 else (fst s, snd s1)).
 
-Definition accepted_legacy (g : guards) (st : Z) (sun : suntab) (occs : list occ) : list bool :=
-  run (lg_step g st sun) None occs.
+Definition accepted_legacy (cfg : deviations) (g : guards) (st : Z) (sun : suntab) (occs : list occ) : list bool :=
+  run (lg_step cfg g st sun) (None, []) occs.
 Definition accepted_new (cfg : deviations) (g : guards) (st : Z) (sun : suntab) (occs : list occ) : list bool :=
-  run (nw_step cfg g st sun) 0 occs.
+  run (nw_step cfg g st sun) (0, []) occs.
 Definition accepted_model (legacy : bool) (cfg : deviations) (g : guards) (st : Z) (sun : suntab) (occs : list occ) : list bool :=
-  if legacy then accepted_legacy g st sun occs else accepted_new cfg g st sun occs.
+  if legacy then accepted_legacy cfg g st sun occs else accepted_new cfg g st sun occs.
 
 (* ================= Spec (from the property text) ================= *)
 (* the expression is evaluated on the triggering values; names they do not bind have their current value *)
@@ -179,3 +203,29 @@ Definition sp_step (g : guards) (st : Z) (sun : suntab) (last : option Z) (o : o
 
 Definition accepted_spec (g : guards) (st : Z) (sun : suntab) (occs : list occ) : list bool :=
   run (sp_step g st sun) None occs.
+
+(* the same, declaratively: when the last run accepted from a trigger was started, given the verdicts so far *)
+Fixpoint last_from (sp : option Z) (occs : list occ) (acc : list bool) : option Z :=
+  match occs, acc with
+  | o :: r, a :: ar => last_from (if a && negb (is_direct o) then Some (o_mono o) else sp) r ar
+  | _, _ => sp
+  end.
+Definition last_accepted (occs : list occ) (acc : list bool) : option Z := last_from None occs acc.
+
+(* the verdict the property text demands for occurrence [o], given when the last accepted run was started *)
+Definition verdict_spec (g : guards) (st : Z) (sun : suntab) (last : option Z) (o : occ) : bool :=
+  is_direct o ||
+  (guards_spec g st sun o &&
+   match hold_of g, last with Some n, Some l => negb (o_mono o - l <? n) | _, _ => true end).
+
+(* ---------- side conditions of the theorems ---------- *)
+(* State.notify_var_last holds the current value of the entities it knows *)
+Definition occ_ok (o : occ) : Prop :=
+  forall k v, env_get (o_last o) k = Some v -> opt_join (env_get (o_cur o) k) = v.
+(* the monotonic clock is positive and does not go backwards along the occurrence list *)
+Fixpoint nondecr (lo : Z) (occs : list occ) : Prop :=
+  match occs with
+  | [] => True
+  | o :: r => lo <= o_mono o /\ nondecr (o_mono o) r
+  end.
+Definition hold_nonneg (g : guards) : Prop := forall n, g_hold g = Some n -> 0 <= n.
